@@ -234,12 +234,15 @@ def fitsAligned (au maxOff len : Nat) (k : Ext) : Bool :=
   let noff := roundup k.1 au
   decide (noff ≤ maxOff) && decide (noff < k.2 + k.1) && decide (k.2 - (noff - k.1) ≥ len)
 
+def lowerThan (k : Ext) : Option Ext → Bool
+  | some b => decide (k.1 < b.1)
+  | none => true
+
 /-- the full scan: the fitting extent with the lowest offset -/
 def scanLowest (au maxOff len : Nat) : List Ext → Option Ext → Option Ext
   | [], best => best
   | k :: ks, best =>
-    let better := match best with | some b => decide (k.1 < b.1) | none => true
-    if better && fitsAligned au maxOff len k then scanLowest au maxOff len ks (some k)
+    if lowerThan k best && fitsAligned au maxOff len k then scanLowest au maxOff len ks (some k)
     else scanLowest au maxOff len ks best
 
 /-- remove `k` from the index, put back what lies before the aligned offset and after the allocation -/
@@ -251,22 +254,25 @@ def carve (s : St) (k : Ext) (len : Nat) : St × Nat :=
   let s := if aklen > len then putFbk s (noff + len) (aklen - len) else s
   (s, noff)
 
-/-- `_fsm_blk_allocate_aligned_lw`; result: state, code, offset (length is `len`) -/
-def allocAligned (s : St) (len maxOff : Nat) : St × Rc × Nat :=
+/-- the extent `_fsm_blk_allocate_aligned_lw` decides to use: the best fit for `len + page` (else for `len`) when
+    it can hold the aligned range, otherwise the fitting extent with the lowest offset -/
+def pickAligned (s : St) (len maxOff : Nat) : Option Ext :=
   let au := aunitBlk s
   let first := match findMatching s.tree 0 (len + au) with
     | some k => some k
     | none => findMatching s.tree 0 len
   match first with
+  | none => none
+  | some k => if fitsAligned au maxOff len k then some k else scanLowest au maxOff len s.tree none
+
+/-- `_fsm_blk_allocate_aligned_lw`; result: state, code, offset (length is `len`) -/
+def allocAligned (s : St) (len maxOff : Nat) : St × Rc × Nat :=
+  match pickAligned s len maxOff with
   | none => (s, .noFree, 0)
   | some k =>
-    let pick := if fitsAligned au maxOff len k then some k else scanLowest au maxOff len s.tree none
-    match pick with
-    | none => (s, .noFree, 0)
-    | some k =>
-      let (s, noff) := carve s k len
-      let (s, rc) := setBits s noff len true
-      (s, rc, noff)
+    let (s, noff) := carve s k len
+    let (s, rc) := setBits s noff len true
+    (s, rc, noff)
 
 def uint64Max : Nat := 2 ^ 64 - 1
 
